@@ -158,6 +158,8 @@ impl Module {
         section: wasmparser::MemorySectionReader,
         ids: &mut IndicesToIds,
     ) -> Result<()> {
+        #[cfg(walrus_verif)]
+        crate::verif::emit("interpret", "memory", -1, -1);
         log::debug!("parse memory section");
         for m in section {
             let m = m?;
